@@ -9,7 +9,7 @@
    `Delimited sh lay` is a DECIDABLE side condition (a boolean function of the derivation): every rendered statement,
    selector, declaration is one closed run for the _tokensupto2 call that cuts it.  It is evaluated by the harness on
    every generated derivation (extracted with the grammar) and holds on all of them; see design_notes/C02.md.       *)
-From CssV Require Import Base Tokenizer Upto Skeleton Grammar GrammarFacts.
+From CssV Require Import Base Tokenizer Upto Skeleton Grammar GrammarFacts GrammarWf.
 From CssV Require Selector.
 
 (* "yields exactly one rule per statement, in source order, carrying the rule type": the top-level loop cuts the token
@@ -107,6 +107,56 @@ Proof.
   exact (parse_faithful_partial_lemma bv bm bo lay Hv Hm Ho sh Hd (selectors_ok_accepted sh Hs)).
 Qed.
 Print Assumptions parse_faithful_checked.
+
+(* ---- no per-case check: Delimited follows from AST-level well-formedness, for EVERY layout.
+   WfSheet sh (GrammarWf.wf_sheet, a boolean function of the derivation alone): property names, identifiers, media types and
+   features, page names, namespace prefixes, at-keywords, unicode-ranges and comment texts do not start with a bracket
+   or delimiter character ( { } [ ] ( ) ; : ! , ); numbers are decimal lexemes (wf_num); the prelude of an unknown
+   at-rule has no top-level block; a rule set starts with a selector token; every selector (AST of CssV.Selector,
+   rendered without any layout) is a closed, counter-neutral run in the three modes that cut it.  Everything that depends
+   on the layout (gaps with whitespace/comments, quote kind, url form, keyword case) and the whole value /
+   declaration / media / statement structure, nested @media included, is proved.                                 *)
+Theorem delimited_of_wf : forall sh lay, WfSheet sh -> Delimited sh lay.
+Proof. exact delimited_of_wf_lemma. Qed.
+Print Assumptions delimited_of_wf.
+
+Theorem skeleton_faithful_wf : forall sh lay,
+  WfSheet sh -> skeleton (render sh lay ++ [eof_tok]) = sheet_items sh lay.
+Proof. intros sh lay H. apply skeleton_faithful. now apply delimited_of_wf. Qed.
+Print Assumptions skeleton_faithful_wf.
+
+Theorem media_faithful_wf : forall sh lay gk g0 media g1 g2 body g,
+  WfSheet sh -> In (SMedia gk g0 media g1 g2 body, g) sh ->
+  media_split (tl (r_stmt lay (SMedia gk g0 media g1 g2 body))) =
+  mkMP (media_head lay g0 media g1 ++ [ch "{"]) [] (media_rules lay g2 body ++ [ch "}"]) None
+       (Some (map (fun p => stmt_item lay (fst p)) body)).
+Proof. intros. eapply media_faithful; eauto. now apply delimited_of_wf. Qed.
+Print Assumptions media_faithful_wf.
+
+Theorem ruleset_faithful_wf : forall sh lay sels b g,
+  WfSheet sh -> In (SStyle sels b, g) sh ->
+  ruleset_layer (r_stmt lay (SStyle sels b)) = Some (map r_selector sels, block_layers lay false b).
+Proof. intros. eapply ruleset_faithful; eauto. now apply delimited_of_wf. Qed.
+Print Assumptions ruleset_faithful_wf.
+
+Theorem parse_faithful_partial_wf :
+  forall (build_value build_media : list tok -> js) (build_other : kind -> list tok -> js) (lay : layout),
+  (forall d ga, build_value (decl_value lay d (gopt lay ga)) = m_value d) ->
+  (forall g0 media g1, build_media (media_head lay g0 media g1 ++ [ch "{"]) = m_mlist media) ->
+  (forall ns x, match x with SStyle _ _ | SMedia _ _ _ _ _ _ | SComment _ => False | _ => True end ->
+                build_other (kind_of x) (r_stmt lay x) = m_stmt ns x) ->
+  forall sh,
+  WfSheet sh -> selectors_ok sh = true ->
+  JL (map (build_item build_value build_media build_other (sheet_depth sh) (ns_of sh)) (skeleton (render sh lay ++ [eof_tok])))
+  = expected_model sh.
+Proof.
+  intros bv bm bo lay Hv Hm Ho sh Hw Hs.
+  exact (parse_faithful_checked bv bm bo lay Hv Hm Ho sh (delimited_of_wf sh lay Hw) Hs).
+Qed.
+Print Assumptions parse_faithful_partial_wf.
+
+Example wf_example : WfSheet ex_sheet /\ forall lay, Delimited ex_sheet lay.
+Proof. split; [exact ex_wf|intros lay; apply delimited_of_wf, ex_wf]. Qed.
 
 (* ---- non-vacuity: a derivation with @charset, comment, @import with a media query, @namespace, a rule set with two
    selectors and two declarations (function, string containing ';}' , calc, !important, url), a nested @media and an
